@@ -282,6 +282,21 @@ def analyse_flush(ctx: Ctx, f: FuncInfo, attr: str = "set_messages") -> Flush:
             key_name = tgt.id
     elif isinstance(tgt, ast.Name):
         key_name = tgt.id
+    elif isinstance(tgt, ast.Tuple) and len(tgt.elts) == 2 and all(isinstance(x, ast.Name) for x in tgt.elts) and isinstance(it, ast.Name):
+        # a local snapshot of (key, entry) pairs - confirmed below from the snapshot's definition
+        src = _accumulator_comp(ctx, f, it.id)
+        if src is None:
+            la = ctx.I.local_assigns(f).get(it.id) or []
+            src = la[0] if len(la) == 1 and isinstance(la[0], ast.expr) else None
+        pairs = False
+        if isinstance(src, (ast.ListComp, ast.GeneratorExp, ast.SetComp)) and isinstance(src.elt, ast.Tuple) and len(src.elt.elts) == 2 and len(src.generators) == 1:
+            gen = src.generators[0]
+            if isinstance(gen.iter, ast.Call) and isinstance(gen.iter.func, ast.Attribute) and gen.iter.func.attr == "items" and isinstance(gen.target, ast.Tuple) and len(gen.target.elts) == 2 and [norm(x) for x in src.elt.elts] == [norm(x) for x in gen.target.elts]:
+                pairs = True
+        elif isinstance(src, ast.Call) and isinstance(src.func, ast.Name) and src.func.id in ("list", "tuple", "sorted") and src.args and isinstance(src.args[0], ast.Call) and isinstance(src.args[0].func, ast.Attribute) and src.args[0].func.attr == "items":
+            pairs = True
+        if pairs:
+            key_name, val_name = tgt.elts[0].id, tgt.elts[1].id
     live = buffer_attr(cont) == attr
     sends = g.nodes_where(lambda n: isinstance(n.ast, ast.stmt) and n.kind == "stmt" and is_send(n.ast) is not None and _inside(lp, n.ast))
     rem_stmts = {id(_stmt(ctx, f, n)) for n, _k in removal_sites(ctx, f, attr)}
@@ -304,6 +319,9 @@ def snapshot_source(ctx: Ctx, fl: Flush, attr: str = "set_messages"):
     """If the loop iterates a local snapshot of the buffer: the defining expression."""
     cont = fl.snapshot
     if isinstance(cont, ast.Name):
+        acc = _accumulator_comp(ctx, fl.func, cont.id)
+        if acc is not None:
+            return acc
         la = ctx.I.local_assigns(fl.func).get(cont.id) or []
         if len(la) == 1 and isinstance(la[0], ast.expr):
             return la[0]
@@ -311,6 +329,47 @@ def snapshot_source(ctx: Ctx, fl: Flush, attr: str = "set_messages"):
     if isinstance(cont, ast.Call):
         return cont
     return None
+
+
+def _accumulator_comp(ctx, f: FuncInfo, name: str):
+    """`acc = []` filled only by `acc.append(X)` inside one await-free `for T in IT:` (under `if`s) is the
+    comprehension `[X for T in IT if ...]`: return that (synthetic) comprehension, else None."""
+    la = ctx.I.local_assigns(f).get(name) or []
+    if len(la) != 1 or not isinstance(la[0], ast.expr):
+        return None
+    init = la[0]
+    empty = (isinstance(init, (ast.List, ast.Tuple)) and not init.elts) or (isinstance(init, ast.Call) and isinstance(init.func, ast.Name) and init.func.id == "list" and not init.args)
+    if not empty:
+        return None
+    parents = ctx.prog.parents
+    appends = []
+    for n in ctx.own_nodes(f):
+        if isinstance(n, ast.Attribute) and isinstance(n.value, ast.Name) and n.value.id == name:
+            par = parents.get(n)
+            if n.attr == "append" and isinstance(par, ast.Call) and par.func is n and len(par.args) == 1:
+                appends.append(par)
+            else:
+                return None
+        elif isinstance(n, ast.Subscript) and isinstance(n.value, ast.Name) and n.value.id == name and not isinstance(n.ctx, ast.Load):
+            return None
+    if len(appends) != 1:
+        return None
+    ap = appends[0]
+    ifs = []
+    cur = parents.get(parents.get(ap))  # Call -> Expr -> container
+    child = parents.get(ap)
+    while cur is not None and not isinstance(cur, (ast.For, ast.AsyncFor, ast.FunctionDef, ast.AsyncFunctionDef)):
+        if isinstance(cur, ast.If) and any(child is x for x in cur.body):
+            ifs.insert(0, cur.test)
+        elif isinstance(cur, ast.If):
+            ifs.insert(0, ast.UnaryOp(op=ast.Not(), operand=cur.test))
+        else:
+            return None
+        child, cur = cur, parents.get(cur)
+    if not isinstance(cur, ast.For) or has_await(cur) or cur.orelse:
+        return None
+    comp = ast.ListComp(elt=ap.args[0], generators=[ast.comprehension(target=cur.target, iter=cur.iter, ifs=ifs, is_async=0)])
+    return ast.copy_location(comp, cur)
 
 
 def reads_buffer(e: ast.AST, attr: str, ctx=None, f: FuncInfo | None = None) -> bool:
@@ -334,7 +393,9 @@ def none_propagation(ctx: Ctx, chk, rule: str) -> None:
     send = ctx.func("aiomysensors.gateway.Gateway.send")
     for V in ctx.versions:
         fr = Frame(I.make_callee(send, send.cls), V).bind("message_buffer", frozenset([Const(False)]))
-        calls = [n for n in ctx.own_nodes(send) if isinstance(n, ast.Call) and isinstance(n.func, ast.Name) and n.func.id == "message_handler"]
+        from . import tables
+
+        calls = tables.dispatch_calls(ctx, send, tables.DISPATCH_OUT)
         if len(calls) != 1:
             raise AnalysisError("handler call in Gateway.send not found")
         c = calls[0]
@@ -356,11 +417,30 @@ def none_propagation(ctx: Ctx, chk, rule: str) -> None:
                     snodes = g.nodes_of(_stmt(ctx, hf, st))
                     tests = [x for x in g.nodes if x.kind == "test" and all(g.dominates(x, s) for s in snodes)]
                     k = f"{hf.fq}::park-branch::{attr}"
-                    dead = any(I.truth(x.ast, t.frame) is False for x in tests)
+                    # polarity: the store may sit in the else-branch of an inverted guard (`if not (...): write / else: park`)
+                    dead = False
+                    for x in tests:
+                        pol = branch_polarity(g, x, snodes)
+                        tv = I.truth(x.ast, t.frame)
+                        if pol is not None and tv is not None and tv != pol:
+                            dead = True
                     if dead:
                         chk.ok(rule, f"{k}@{V}", "parking branch definitely not taken when the buffer argument is None", ctx.loc(hf, st), sample=V == "1.4")
                     else:
                         chk.refute(rule, k, f"{hf.qualname} can park in {attr} although the buffer argument is None (message_buffer=False)", ctx.loc(hf, st), version=V)
+
+
+def branch_polarity(g, test_node, targets) -> bool | None:
+    """True when only the true-branch of the test leads to the target nodes, False when only the false-branch, else None."""
+    reach = {}
+    for lab in ("t", "f"):
+        starts = [s_ for s_, l_ in test_node.succ if l_ == lab]
+        reach[lab] = any(s_ in targets for s_ in starts) or g.reach_avoiding(starts, lambda x: x in targets, lambda x: x is test_node, from_succ=False) is not None
+    if reach["t"] and not reach["f"]:
+        return True
+    if reach["f"] and not reach["t"]:
+        return False
+    return None
 
 
 COPY_FORMS = ("Message(**vars(In))", "copy.copy(In)", "copy(In)", "copy.deepcopy(In)", "deepcopy(In)", "replace(In)", "dataclasses.replace(In)")
